@@ -319,11 +319,17 @@ class C15(core.Property):
                                    "observations of every phase of every sequence of crashes satisfy judgePhases. Proved: the first phase in full "
                                    "(multi_crash_first_phase / multi_crash_first_of_runPhases, = crash_spec_ack); for every phase of every sequence from any start system: "
                                    "recovering twice / crashing again gives the same reads (phase_recover_idempotent), a recovered cell is a surviving log entry's or an "
-                                   "SSTable's (phase_no_invention), a crash cycle with nothing executed returns the baseline (idle_phase_after, recovered_is_durable); and the "
+                                   "SSTable's (phase_no_invention), a crash cycle with nothing executed returns the baseline (idle_phase_after, recovered_is_durable); "
+                                   "multi_crash_spec_partial: the WHOLE predicate judgePhases (durable_survive, no_resurrection, no_invention, recover_idempotent, baseline "
+                                   "and earlier-phase values) for every sequence of crashes — any number of phases, every policy, every schedule, lossy crashes, abandoned "
+                                   "operations, stuck _compacting / _wal_pending — under the hypotheses of multi_crash_spec_full plus NoInstall for the phases after the "
+                                   "first crash: no flush-install and no compaction-install segment executes there (memtables may be frozen; the first phase is "
+                                   "unrestricted). Proof without ghost log: levels constant, log only appended (pinv_run), per-key facts (later_phase_facts), judge link "
+                                   "(judgePhase_of_facts, later_phase_judge), induction over the phase list (judgePhases_later, kstart_first, kstart_next); and the "
                                    "state-level contracts a second crash relies on, for every state: sequence numbers are not rewound (crash_keeps_nextSeq: the surviving log "
                                    "has gaps), crash keeps exactly the entries <= synced_up_to (crash_wal), a flush's truncation drops only entries <= its bound whatever gaps "
-                                   "the log has (flushInstall_keeps_newer, flushInstall_wal_sub). NOT proved: durable_survive / no_resurrection for the phases after the first "
-                                   "crash — the run invariants LInv / WInv (ghost log of memtable inserts tied to frames) are established from a fresh tree only; "
+                                   "the log has (flushInstall_keeps_newer, flushInstall_wal_sub). NOT proved: durable_survive / no_resurrection for phases after the first "
+                                   "crash in which a flush or compaction INSTALLS (the log is truncated / levels change over a recovered state) — the run invariants LInv / WInv (ghost log of memtable inserts tied to frames) are established from a fresh tree only; "
                                    "re-establishing them for a recovered state with abandoned operations is open. Those clauses are checked by the Lean judge on every "
                                    "multi-crash case and the model is compared with the implementation after every crash.",
         "no_invention": "state level (HappyModel.C15.no_invention): a recovered cell is the cell of a surviving log entry of that key or is held by an SSTable; "
@@ -518,6 +524,15 @@ THEOREMS = [
     "HappyModel.C15.idle_phase_after",
     "HappyModel.C15.multi_crash_first_phase",
     "HappyModel.C15.multi_crash_first_of_runPhases",
+    "HappyModel.C15.noInstall_of_B",
+    "HappyModel.C15.pinv_run",
+    "HappyModel.C15.later_phase_facts",
+    "HappyModel.C15.kstart_next",
+    "HappyModel.C15.judgePhase_of_facts",
+    "HappyModel.C15.later_phase_judge",
+    "HappyModel.C15.judgePhases_later",
+    "HappyModel.C15.kstart_first",
+    "HappyModel.C15.multi_crash_spec_partial",
 ]
 C15.theorems = THEOREMS
 PROPERTY = C15()
